@@ -37,6 +37,7 @@ HEAP_FIELDS = {'value': V, 'formula': V, 'edges': z3.ArraySort(Node, z3.BoolSort
 HEAP_FIELDS['set:cell_map'] = z3.BoolSort()      # formula: NONE_V = the cell has no formula (a constant / frozen cell)
 ISRANGE = z3.Function('is_range_node', Node, z3.BoolSort())
 ISUNBOUNDED = z3.Function('is_unbounded_ref_node', Node, z3.BoolSort())
+ADDRTEXT = z3.Function('address_text', Node, z3.StringSort())
 
 
 def declare_heap_set(name):
@@ -133,6 +134,9 @@ class SAddrKey:
             return mk_bool(ISRANGE(self.node))
         raise Unsupported('substring test on an address key')
 
+    def hm_str(self, interp):
+        return sym.mk_str(ADDRTEXT(self.node))
+
     def __repr__(self):
         return f'<address of {self.node}>'
 
@@ -151,6 +155,9 @@ class SAddrObj:
         if name == 'is_unbounded_range':
             return mk_bool(ISUNBOUNDED(self.node))
         raise Unsupported(f'address.{name} of an abstract node', node)
+
+    def hm_str(self, interp):
+        return sym.mk_str(ADDRTEXT(self.node))
 
 
 class SNodeSet:
@@ -297,6 +304,37 @@ class SCellMap:
             return heap_cell(interp, n, 'pycel.excelcompiler:_CellRange')
         return heap_cell(interp, n)
 
+    def as_abstract_set(self, interp):
+        """iteration over the map: its keys, i.e. the addresses of the nodes that are in it now"""
+        if not self.mutable:
+            raise Unsupported('iteration over the static cell_map')
+        snap = heap_of(interp.ex)['set:cell_map']
+        return SAbstractSet(lambda n, _s=snap: z3.Select(_s, n), 'cell_map keys', element=lambda i, n: SAddrKey(n))
+
+    def hm_getattr(self, interp, name, node):
+        from .interp import Builtin
+        if name == 'get':
+            def get(i, a, k, n):
+                key = a[0]
+                default = a[1] if len(a) > 1 else None
+                if isinstance(key, SAddrKey) and self.mutable:
+                    if i.ex.branch(z3.Select(heap_of(i.ex)['set:cell_map'], key.node)):
+                        return heap_cell(i, key.node)
+                    return default
+                raise Unsupported('cell_map.get with this key', n)
+            return Builtin('cell_map.get', get)
+        raise Unsupported(f'cell_map.{name}', node)
+
+    def hm_delete_index(self, interp, idx, node):
+        if not (isinstance(idx, SAddrKey) and self.mutable):
+            raise Unsupported('del cell_map[...] with this key', node)
+        ex = interp.ex
+        h = dict(heap_of(ex))
+        if not ex.branch(z3.Select(h['set:cell_map'], idx.node)):
+            interp.raise_exc('KeyError', 'address not in cell_map', node)
+        h['set:cell_map'] = z3.Store(h['set:cell_map'], idx.node, False)
+        ex.heap = h
+
     def hm_len(self, interp, node):
         n = z3.Int(interp.ex.fresh_name('n_cells'))
         interp.ex.assume(n >= 0)
@@ -413,6 +451,10 @@ def make_heap_eval(frames):
 
 class Dummy:
     """an object whose methods do nothing (loggers)"""
+
+    def hm_getattr(self, interp, name, node):
+        from .interp import Builtin
+        return Builtin(f'log.{name}', lambda i, a, k, n: None)
 
 
 # ---------------------------------------------------------------------------------------------
@@ -539,12 +581,20 @@ def sx_old_holds_f(interp, args, kwargs, node):
     return mk_bool(z3.Select(old, n) == FSEM(n, old))
 
 
+def _set_field(h, name, node=None):
+    f = h.get('set:' + name)
+    if f is None:
+        raise Unsupported(f'the contract speaks about the address set {name!r}, which the code under verification does not '
+                          f'keep as such (a plain `{name} = set()` local is expected)', node)
+    return f
+
+
 def sx_in_set(interp, args, kwargs, node):
-    return mk_bool(z3.Select(cur_heap(interp)['set:' + args[0]], _node(args[1])))
+    return mk_bool(z3.Select(_set_field(cur_heap(interp), args[0], node), _node(args[1])))
 
 
 def sx_old_in_set(interp, args, kwargs, node):
-    return mk_bool(z3.Select(old_heap(interp)['set:' + args[0]], _node(args[1])))
+    return mk_bool(z3.Select(_set_field(old_heap(interp), args[0], node), _node(args[1])))
 
 
 def sx_has_formula(interp, args, kwargs, node):
@@ -570,6 +620,27 @@ def sx_edge(interp, args, kwargs, node):
 
 def sx_old_edge(interp, args, kwargs, node):
     return mk_bool(edge_term(old_heap(interp), _node(args[0]), _node(args[1])))
+
+
+def loop_heap(interp):
+    vr = interp.world.verifier
+    h = getattr(vr, 'loop_heap', None)
+    if h is None:
+        raise Unsupported('pre_* used outside a loop invariant')
+    return h
+
+
+def sx_pre_in_set(interp, args, kwargs, node):
+    """membership when the loop being cut was entered"""
+    return mk_bool(z3.Select(_set_field(loop_heap(interp), args[0], node), _node(args[1])))
+
+
+def sx_pre_same_fields(interp, args, kwargs, node):
+    """value and formula of the node are what they were when the loop was entered"""
+    n = _node(args[0])
+    lh, ch = loop_heap(interp), cur_heap(interp)
+    return mk_bool(z3.And(z3.Select(ch['value'], n) == z3.Select(lh['value'], n),
+                          z3.Select(ch['formula'], n) == z3.Select(lh['formula'], n)))
 
 
 def sx_local(interp, args, kwargs, node):
